@@ -126,6 +126,7 @@ def capture_obligations(rep, res, entry, out, dom, trapz):
     R.rule_dtype_casts(rep, res, entry)
     R.rule_dtype(rep, res, entry)
     gradient_weights(rep, res, entry)
+    linear_after_integration(rep, res, entry)
     ints = res.events("integrate")
     if dom == "array" or trapz:
         if not ints:
@@ -188,6 +189,19 @@ def integral_obligations(rep, res, dom, keep, axis):
                   config=res.config, msg=f"integrates along {a}, requested {axis}")
     R.rule_type_errors(rep, res, "SHAPE", "R-SHAPE", entry)
     R.rule_no_global_state(rep, res, entry)
+    linear_after_integration(rep, res, entry)
+
+
+def linear_after_integration(rep, res, entry):
+    """the integral is LINEAR in its integrand (superposition, sign): the integrator's result is not passed through |·| on its way out"""
+    evs = res.events("nonlinear_after_integration")
+    for ev in evs[:2]:
+        rep.violated("R-QTY", "the integral is linear in the integrand", where=ev.loc, construct=ev.text()[:80], entry=entry, config=res.config,
+                     msg="the result of the trapezoid integration is wrapped in an absolute value: ∫(−f) = −∫f and superposition no longer hold — "
+                         "every integrand with a negative integral (difference spectra, opponent filters) comes back with its sign flipped")
+    if not evs:
+        rep.holds("R-QTY", "the integral is linear in the integrand", where=res.fn.loc(), construct="result of the integrator", entry=entry,
+                  config=res.config)
 
 
 def gradient_weights(rep, res, entry):
